@@ -19,10 +19,11 @@ import Reduino.Lang.Tr
       declarations of finding F17 are outside); the targets are assigned names, so they are never `for` variables; the names
       `__tmp_assign_<n>` are reserved: a program with a tuple assignment has no assigned name and no declared name of that shape;
     * `mon.write` of int- or string-typed expressions (a bool prints as True/False under CPython and 1/0 on the device);
-    * strings (W13): literals of printable ASCII; a string-typed expression is a literal, a string-typed name, or a conditional
-      expression with two string branches; strings are kept out of conditions (`if`, `while`, `not`, the test of a conditional
+    * strings (W13): literals of printable ASCII; a string-typed expression is a literal, a string-typed name, a conditional
+      expression with two string branches, `str(e)` of an int- or string-typed `e` (not bool: "True" vs "1"), or `a + b` on two
+      strings where the emitted sum has a `String` object on one side (`Expr.binTyOk`; `s += e` likewise); strings are kept out of conditions (`if`, `while`, `not`, the test of a conditional
       expression: Python tests "non-empty", the `String` class something else), out of counts (`range`, `sleep`: `Expr.okCond`),
-      out of arithmetic and out of comparisons; a name keeps one type, so a string-typed name is only ever assigned strings.
+      out of every other arithmetic and out of comparisons; a name keeps one type, so a string-typed name is only ever assigned strings.
 -/
 namespace Reduino.Lang
 
@@ -40,6 +41,7 @@ def Expr.vars : Expr → List String
   | .ite c a b => c.vars ++ a.vars ++ b.vars
   | .abs a => a.vars
   | .mm _ a b => a.vars ++ b.vars
+  | .toStr a => a.vars
 
 def Stmt.assigned : Stmt → List String
   | .skip => []
@@ -59,13 +61,30 @@ def Stmt.assigned : Stmt → List String
     `Esc.escape`; what the C++ lexer reads back is C06's `escape_roundtrip`) -/
 def okLitChar (c : Char) : Bool := 32 ≤ c.toNat && c.toNat < 127
 
+/-- the emitted C++ expression has the static type `const char*` (a literal, or a conditional expression choosing between two such):
+    `const char* + const char*` does not compile, while a `String` on either side of `+` does -/
+def Expr.cstr : Expr → Bool
+  | .str _ => true
+  | .ite _ a b => a.cstr && b.cstr
+  | _ => false
+
+def Expr.isLit : Expr → Bool
+  | .str _ => true
+  | _ => false
+
+/-- operand types of a binary operator: two numbers, or `+` on two strings of which the emitted left operand (a literal is wrapped
+    into `String("…")`) or the right one is a `String` object -/
+def Expr.binTyOk (te : C.TyEnv) (op : BinOp) (a b : Expr) : Bool :=
+  (inferTy te a != .string && inferTy te b != .string) ||
+  (op == .add && inferTy te a == .string && inferTy te b == .string && (a.isLit || !a.cstr || !b.cstr))
+
 /-- coarse-type discipline of an expression under `te` -/
 def Expr.wt (te : C.TyEnv) : Expr → Bool
   | .int _ => true
   | .bool _ => true
   | .str s => s.toList.all okLitChar
   | .var x => (te.lookup x).isSome
-  | .bin _ a b => a.wt te && b.wt te && inferTy te a != .string && inferTy te b != .string
+  | .bin op a b => a.wt te && b.wt te && Expr.binTyOk te op a b
   | .neg a => a.wt te && inferTy te a == .int
   | .cmp _ a b => a.wt te && b.wt te && inferTy te a != .string && inferTy te b != .string
   | .and a b => a.wt te && b.wt te && inferTy te a == .bool && inferTy te b == .bool
@@ -74,6 +93,7 @@ def Expr.wt (te : C.TyEnv) : Expr → Bool
   | .ite c a b => c.wt te && a.wt te && b.wt te && inferTy te a == inferTy te b && inferTy te c != .string
   | .abs a => a.wt te
   | .mm _ a b => a.wt te && b.wt te && inferTy te a == .int && inferTy te b == .int
+  | .toStr a => a.wt te && inferTy te a != .bool          -- `str(True)` is "True", `String(true)` is "1"
 
 /-- a condition (`if`, `while`) or a count (`range`, `sleep`): well typed and not a string (Python's truth value of a string is
     "non-empty", the `String` class converts differently; `range("a")` / `sleep("a")` raise) -/
